@@ -15,6 +15,9 @@ vars == <<sent, rng>>
 
 DurMs == <<1000, 2000, 1500, 250, 125, 100, 300, 3000, 40, 7, 1001, 500, 750, 60000>>
 DelMs == <<0, 500, 125, 1000, 250, 1, 333, 2500>>
+\* in ticks, with fractional numbers of milliseconds added: 24.5 ms, 2.5 ms, 1000.5 ms, 1.5 ms, 250.5 ms / 2.5 ms, 0.5 ms, 333.5 ms
+DurT == [i \in 1..Len(DurMs) |-> DurMs[i] * TPM] \o <<49, 5, 2001, 3, 501>>
+DelT == [i \in 1..Len(DelMs) |-> DelMs[i] * TPM] \o <<5, 1, 667>>
 Eases == <<11, 12, 19, 23, 37, 10, 28>>
 Positions == <<0, 200, 100, 50, 80, 20, 25, 150, 199, 1, 66, 120, 175, 134>>    \* half-percents: 40% = 80, 12.5% = 25
 ValX == <<8, -4, 100, 0, 37>>
@@ -26,12 +29,12 @@ Pick(s, r) == s[(r % Len(s)) + 1]
 \* one pseudo-random argument from generator state r
 Arg(r) ==
   LET r1 == LCG(r)  r2 == LCG(r1)  r3 == LCG(r2)  c == r1 % 12 IN
-  IF c < 2 THEN LET ms == Pick(DurMs, r2) IN
-                [k |-> "dur", ms |-> ms,
-                 form |-> IF ms % 1000 = 0 /\ (r3 % 3) = 0 THEN (IF (r3 % 2) = 0 THEN "s" ELSE "for_s")
+  IF c < 2 THEN LET tk == Pick(DurT, r2) IN
+                [k |-> "dur", tk |-> tk,
+                 form |-> IF tk % (1000 * TPM) = 0 /\ (r3 % 3) = 0 THEN (IF (r3 % 2) = 0 THEN "s" ELSE "for_s")
                           ELSE IF (r3 % 5) = 0 THEN "s" ELSE IF (r3 % 5) = 1 THEN "for_ms"
-                          ELSE IF (r3 % 5) = 2 /\ ms >= 1000 THEN "ms_" ELSE IF (r3 % 5) = 3 THEN "for_s" ELSE "ms"]
-  ELSE IF c = 2 THEN [k |-> "del", ms |-> Pick(DelMs, r2), form |-> IF (r3 % 2) = 0 THEN "s" ELSE "ms"]
+                          ELSE IF (r3 % 5) = 2 /\ tk >= 1000 * TPM /\ tk % TPM = 0 THEN "ms_" ELSE IF (r3 % 5) = 3 THEN "for_s" ELSE "ms"]
+  ELSE IF c = 2 THEN [k |-> "del", tk |-> Pick(DelT, r2), form |-> IF (r3 % 2) = 0 THEN "s" ELSE "ms"]
   ELSE IF c = 3 THEN [k |-> "rep", n |-> IF (r2 % 4) = 0 THEN -2 ELSE IF (r2 % 11) = 0 THEN Pick(<<16777217, 2000000001, 1000000, 33554431>>, r3) ELSE (r2 % 5) + 1]
   ELSE IF c = 4 THEN [k |-> "rev"]
   ELSE IF c = 5 THEN [k |-> "ease", e |-> Pick(Eases, r2)]
@@ -62,7 +65,7 @@ SetToSeq(S) == IF S = {} THEN <<>> ELSE LET x == CHOOSE y \in S : TRUE IN <<x>> 
 RECURSIVE SortedSeq(_)
 SortedSeq(S) == IF S = {} THEN <<>> ELSE LET x == CHOOSE y \in S : \A z \in S : y <= z IN <<x>> \o SortedSeq(S \ {x})
 
-\* Times (ms) at which macro and builder twin are compared bit for bit: anything goes.
+\* Times (ticks) at which macro and builder twin are compared bit for bit: anything goes.
 TwinTimes(cfg) ==
   LET c == cfg.tm.cyc  d == cfg.tm.del
       cycles == IF Unbounded(cfg.tm) THEN 3 ELSE IF cfg.tm.rep = -1 THEN 1 ELSE cfg.tm.rep + 1 IN
@@ -74,9 +77,9 @@ TwinTimes(cfg) ==
 SampleTimes(cfg) ==
   LET c == cfg.tm.cyc  d == cfg.tm.del
       cycles == IF Unbounded(cfg.tm) THEN 3 ELSE IF cfg.tm.rep = -1 THEN 1 ELSE cfg.tm.rep + 1
-      inner == IF c < 100 THEN {} ELSE {d + (((2 * j + 1) * c) \div 16) : j \in 0..(8 * cycles - 1)} IN
+      inner == IF c < 100 * TPM THEN {} ELSE {d + (((2 * j + 1) * c) \div 16) : j \in 0..(8 * cycles - 1)} IN
   SortedSeq({0} \cup {t \in inner : ((t - d) % c) # 0}
-            \cup (IF Unbounded(cfg.tm) THEN {} ELSE {d + c * cycles + c + 100})
+            \cup (IF Unbounded(cfg.tm) THEN {} ELSE {d + c * cycles + c + 100 * TPM})
             \cup (IF d > 1 THEN {d \div 2} ELSE {}))
 
 Class(cfg, t, p) ==
@@ -88,7 +91,7 @@ Class(cfg, t, p) ==
 
 Emit == Len(sent) > 0 =>
   LET cfg == Reading(sent)  ts == SampleTimes(cfg) IN
-  PrintT(<<"REPLAY", ToJson([kind |-> "sentence", pd |-> PD, np |-> NP, args |-> sent,
+  PrintT(<<"REPLAY", ToJson([kind |-> "sentence", tpm |-> TPM, pd |-> PD, np |-> NP, args |-> sent,
                              kfs |-> cfg.kfs, de |-> cfg.de, tm |-> cfg.tm, ov |-> NoOvAll, total |-> TotalOf(cfg),
                              ts |-> ts, tw |-> TwinTimes(cfg),
                              evals |-> [i \in 1..Len(ts) |-> LET r == Eval(cfg, NoOvAll, ts[i]) IN [p \in Props |-> SetToSeq(r[p])]],
